@@ -97,6 +97,9 @@ type simpleRequest struct {
 	resp       *RespValue
 	hooks      []func(*simpleRequest)
 	done       chan struct{}
+
+	// redirections counts the MOVED/ASK redirections followed so far.
+	redirections int
 }
 
 func newSimpleRequest(v *RespValue) *simpleRequest {
